@@ -62,7 +62,18 @@ def spread_width_v(self, cycle):
 
 
 def make_sequence(n):
-    from pyroll.core import Roll, RollPass, Transport, RoundGroove, CircularOvalGroove, PassSequence
+    from pyroll.core import Roll, RollPass, ThreeRollPass, Transport, RoundGroove, CircularOvalGroove, PassSequence
+    if n in ('mixed', 'three'):
+        # 'mixed': two-high roughing stands followed by a three-roll finishing stand; 'three': a pure three-roll block
+        three = lambda lbl, r2, d, gap: ThreeRollPass(label=lbl, roll=Roll(groove=RoundGroove(r1=1e-3, r2=r2, depth=d, pad_angle=30), nominal_radius=160e-3), gap=gap)  # noqa
+        if n == 'mixed':
+            units = [RollPass(label="P0", roll=Roll(groove=CircularOvalGroove(depth=8e-3, r1=6e-3, r2=40e-3), nominal_radius=160e-3), gap=2e-3),
+                     Transport(label="T0", duration=1),
+                     RollPass(label="P1", roll=Roll(groove=RoundGroove(r1=1e-3, r2=12.5e-3, depth=11.5e-3), nominal_radius=160e-3), gap=2e-3),
+                     Transport(label="T1", duration=1), three("P2", 11e-3, 4.5e-3, 1e-3)]
+        else:
+            units = [three("P0", 14.5e-3, 6e-3, 1.5e-3), Transport(label="T0", duration=1), three("P1", 13e-3, 5.4e-3, 1.2e-3)]
+        return PassSequence(units)
     specs = [('oval', dict(depth=8e-3, r1=6e-3, r2=40e-3)), ('round', dict(r1=1e-3, r2=12.5e-3, depth=11.5e-3)),
              ('oval', dict(depth=6e-3, r1=6e-3, r2=35e-3)), ('round', dict(r1=1e-3, r2=10e-3, depth=9e-3))]
     units = []
@@ -103,7 +114,7 @@ def check_flux(chk, seq, mode, speed, label):
 
 def real_runs(chk, rng):
     from pyroll.core import Profile, RollPass
-    cases = [(2, None), (3, None), (3, 'draught'), (3, 'velocity')] + ([(4, 'draught'), (4, None), (2, 'velocity'), (4, 'velocity')] if chk.thorough else [])
+    cases = [(2, None), (3, None), (3, 'draught'), (3, 'velocity'), ('mixed', 'three-roll'), ('three', 'three-roll')] + ([(4, 'draught'), (4, None), (2, 'velocity'), (4, 'velocity')] if chk.thorough else [])
     int_round = [0]
     for n, spread in cases:
         for mode in ('backward', 'forward'):
@@ -118,7 +129,14 @@ def real_runs(chk, rng):
             carried = {} if int_round[0] % 2 else {'velocity': rng.choice([0.3, 5.0, 11])}
             ip = Profile.round(diameter=30e-3, temperature=1473.15, material=["C45", "steel"], length=1, **carried)
             ctx = [RollPass.Profile.flow_stress(flow_stress)]
-            if spread:
+            if spread == 'three-roll':
+                from pyroll.core import ThreeRollPass, BaseRollPass
+                ctx.append(BaseRollPass.Profile.flow_stress(flow_stress))
+                ctx.append(RollPass.OutProfile.width(spread_width))
+                ctx.append(ThreeRollPass.OutProfile.width(lambda self, cycle: None if cycle else self.roll_pass.usable_width * 0.97))
+                if n == 'three':
+                    ip = Profile.round(diameter=30e-3, temperature=1473.15, material=["C45", "steel"], length=1, velocity=rng.choice([0.3, 5.0]))
+            elif spread:
                 ctx.append(RollPass.OutProfile.width(spread_width if spread == 'draught' else spread_width_v))
             label = f"{n} passes{' with ' + spread + '-dependent spread model' if spread else ''}{', incoming profile carries velocity ' + str(carried['velocity']) if carried else ''}"
             try:
@@ -133,6 +151,7 @@ def real_runs(chk, rng):
                         break
                     check_flux(chk, seq, m, speed, label + f" (call {step + 1} on the same sequence)")
                     chk.cov['evaluations'] += 1
+                    chk.x_stats['real_velocity_calculations_checked'] = chk.x_stats.get('real_velocity_calculations_checked', 0) + 1
             finally:
                 for hf in ctx:
                     hf.hook.remove_function(hf)
